@@ -11,6 +11,9 @@ NOTE = ("Trusted base: the Go type checker (go/types), go/packages loading of /r
 
 # id -> (technique, level text, design ref)
 CLAIMS = {
+ "C34": ("table composition (AST/SSA): interpreter operation->method, compiler operation->instruction, VM instruction->handler->method with operand order; exhaustiveness of the VM dispatch over instruction types; agreement of native implementations registered per built-in function name",
+         "Structural necessary conditions: both engines evaluate each operator with the same value method and operand order, every instruction has a VM handler, and built-in functions are bound to the same native implementation in both engines.",
+         "DESIGN.md §4 C34"),
  "C30": ("pinned census of metering edges (function -> computation/memory kinds, resolved constants) + per-iteration placement of loop metering + dominance pairing of call-depth increment/decrement + VM limit/instruction checks + peephole pattern opcode check",
          "Structural necessary conditions: no reviewed metering edge disappears, loops are metered per iteration in both engines, the tracked call depth cannot drift from the real depth, the VM enforces its stack limit, and optimisation cannot delete metering instructions.",
          "DESIGN.md §4 C30"),
